@@ -157,4 +157,19 @@ def check (h : TyName) (allowNull : Bool) (v : V) : Bool :=
     | some p => holds p v
     | none => typeName v == h || baseChain h v
 
+/-- The same `loop` over a *graph* of maps (nodes are numbers, `base n` is the node in `n`'s `@base`
+entry, `ty n` its type name), where — unlike in the tree universe `V` — a chain can be cyclic.
+`none` = the fuel ran out with the loop still going. The code has no cycle detection (F-C16-2). -/
+def walkBase (ty : Nat → TyName) (base : Nat → Option Nat) (h : TyName) : Nat → Nat → Option Bool
+  | 0, _ => none
+  | fuel + 1, n =>
+    match base n with
+    | none => some false
+    | some b => if ty b = h then some true else walkBase ty base h fuel b
+
+/-- `b` is reached from `a` by `k` `@base` steps -/
+def reaches (base : Nat → Option Nat) : Nat → Nat → Nat → Prop
+  | 0, a, b => a = b
+  | k + 1, a, b => ∃ m, base a = some m ∧ reaches base k m b
+
 end KotoVerif.Types
